@@ -57,6 +57,23 @@ def phi(alts: Sequence[Term]) -> Term:
     return ("phi", tuple(sorted(flat, key=repr)))
 
 
+def upd(t: Term, fields: Dict[str, Term]) -> Term:
+    """object t with attribute stores applied."""
+    if t[0] == "new":
+        cur = dict(t[2])
+        order = [f for f, _ in t[2]]
+        for f, v in fields.items():
+            if f not in cur:
+                order.append(f)
+            cur[f] = v
+        return ("new", t[1], tuple((f, cur[f]) for f in order))
+    if t[0] == "upd":
+        cur = dict(t[2])
+        cur.update(fields)
+        return ("upd", t[1], tuple(sorted(cur.items())))
+    return ("upd", t, tuple(sorted(fields.items())))
+
+
 def subterms(t: Any):
     if isinstance(t, tuple):
         yield t
@@ -157,6 +174,8 @@ def show(t: Any, depth: int = 0) -> str:
         return f"Visit({s(t[1])})"
     if k == "gvisit":
         return f"GVisit({s(t[1])})"
+    if k == "upd":
+        return f"{s(t[1])}{{" + ", ".join(f"{f}:={s(v)}" for f, v in t[2]) + "}"
     if k == "tvisit":
         return f"{t[1].split(':')[-1]}().visit({s(t[2])})"
     if k == "phi":
@@ -397,9 +416,82 @@ class FuncAnalysis:
             pass
         if not defs:
             return ("top", f"unbound local {name}")
-        alts = [self._def_term(d, depth) for d in sorted(defs, key=lambda d: (d.node.id if d.node else -1, d.path and repr(d.path)))]
+        alts = []
+        for d in sorted(defs, key=lambda d: (d.node.id if d.node else -1, d.path and repr(d.path))):
+            td = self._def_term(d, depth)
+            if d.kind == "assign" and d.path == () and d.node is not None:
+                td = self._apply_stores(td, name, d, at, depth)
+            alts.append(td)
         t = phi(alts)
         return self._refine(t, e, name)
+
+    def _on_all_paths(self, a: CNode, m: CNode, b: CNode) -> bool:
+        """every path a -> b passes through m."""
+        seen = {m}
+        st = [a]
+        while st:
+            x = st.pop()
+            if x in seen:
+                continue
+            seen.add(x)
+            for y, _f in x.succ:
+                if y is b:
+                    return False
+                st.append(y)
+        return True
+
+    def attr_stores(self, name: str, d: "Def", at: CNode, depth: int = 0) -> List[Tuple[CNode, str, Term]]:
+        """`name.f = v` / setattr(name, 'f', v) statements executed on every path between the single
+        definition d of `name` and the program point `at` (dominance both ways)."""
+        out: List[Tuple[CNode, str, Term]] = []
+        cfg = self.cfg
+        for m in cfg.nodes:
+            if m.kind != "stmt" or m is at or m.stmt is None:
+                continue
+            s = m.stmt
+            hits: List[Tuple[str, ast.AST]] = []
+            if isinstance(s, ast.Assign):
+                for tg in s.targets:
+                    if isinstance(tg, ast.Attribute) and isinstance(tg.value, ast.Name) and tg.value.id == name:
+                        hits.append((tg.attr, s.value))
+            elif isinstance(s, ast.Expr) and isinstance(s.value, ast.Call) and isinstance(s.value.func, ast.Name) and s.value.func.id == "setattr":
+                a = s.value.args
+                if len(a) == 3 and isinstance(a[0], ast.Name) and a[0].id == name:
+                    if isinstance(a[1], ast.Constant) and isinstance(a[1].value, str):
+                        hits.append((a[1].value, a[2]))
+                    else:
+                        kt = self._t(a[1], m, {}, depth)
+                        kt = self._global_const(kt)
+                        if kt[0] == "const" and isinstance(kt[1], str):
+                            hits.append((kt[1], a[2]))
+            if not hits:
+                continue
+            if self._rd_in.get(m, {}).get(name) != frozenset([d]):
+                continue
+            if not (cfg.dominates(d.node, m) and self._on_all_paths(d.node, m, at)):
+                continue
+            for f, v in hits:
+                out.append((m, f, self._t(v, m, {}, depth)))
+        out.sort(key=lambda x: sum(1 for y in out if cfg.dominates(y[0], x[0])))
+        return out
+
+    def _global_const(self, t: Term) -> Term:
+        """('global', 'pkg.mod.NAME') bound to a literal at module level -> that constant."""
+        if t[0] == "global":
+            mod, _, nm = t[1].rpartition(".")
+            mi = self.model.modules.get(mod)
+            if mi is not None and nm in mi.assigns and isinstance(mi.assigns[nm], ast.Constant):
+                return ("const", mi.assigns[nm].value)
+        return t
+
+    def _apply_stores(self, t: Term, name: str, d: "Def", at: CNode, depth: int) -> Term:
+        stores = self.attr_stores(name, d, at, depth)
+        if not stores:
+            return t
+        fields: Dict[str, Term] = {}
+        for _m, f, v in stores:
+            fields[f] = v
+        return upd(t, fields)
 
     def _refine(self, t: Term, e: ast.AST, name: str) -> Term:
         if t[0] != "phi" or ("const", None) not in t[1]:
@@ -489,6 +581,11 @@ class FuncAnalysis:
             for f, v in t[2]:
                 if f == name:
                     return v
+        if t[0] == "upd":
+            for f, v in t[2]:
+                if f == name:
+                    return v
+            return self._attr(t[1], name, depth)
         return ("attr", t, name)
 
     def _t(self, e: ast.AST, at: CNode, env: Dict[str, Term], depth: int) -> Term:
